@@ -530,6 +530,262 @@ fn main() {
             );
         }
 
+        // ------------------------------------------------------------------ (d) truncation x indexed access
+        // For every cut of a data document that has an index: open the cut file with the index of the COMPLETE file,
+        // read the header and run a sequence of region queries (+ query_unmapped) on the same reader (vnd::query).
+        // Every query must yield a prefix (in order) of the complete file's answer; a shorter answer must end in Err
+        // unless the first missing record lies in data that is not there at all (its BGZF member / CRAM container
+        // starts at or after the cut, or fewer than 18 bytes of the member are present: the sequential EOF rule).
+        {
+            let all_extra = vnd::extra(ctx.thorough());
+            let mut pool: Vec<Doc> = docs.clone();
+            for d in all_extra {
+                if !pool.iter().any(|x| x.name == d.name) {
+                    pool.push(d);
+                }
+            }
+            struct IRow {
+                data: Doc,
+                index: Doc,
+                gzi: Option<Doc>,
+                cuts: Vec<usize>,
+                full: Vec<String>,
+                /// (rendering key, start offset of the first unit that holds the record, end offset of the last one)
+                units: Vec<(String, usize, usize)>,
+            }
+            let key_of = |line: &str| -> String {
+                // sequential eager lines: "rec[i]: bs=N <render>" / "rec[i]: n=N <render>" / "rec[i]: <render>"
+                let body = line.split_once("]: ").map(|x| x.1).unwrap_or(line);
+                let body = match body.split_once(' ') {
+                    Some((a, b)) if a.starts_with("bs=") || a.starts_with("n=") => b,
+                    _ => body,
+                };
+                body.trim_start().to_string()
+            };
+            let mut irows: Vec<IRow> = Vec::new();
+            for d in pool.iter() {
+                if d.big || d.raw || d.index_of.is_some() || d.name.starts_with("eng-") || d.equiv_of.is_some() {
+                    continue;
+                }
+                let text_kind = d.format == Format::Bgzf && d.set.ends_with(".gz");
+                if !(text_kind || matches!(d.format, Format::Bam | Format::Bcf | Format::VcfGz | Format::SamGz | Format::Cram)) {
+                    continue;
+                }
+                let Some(index) = pool.iter().find(|x| x.index_of.as_deref() == Some(d.name.as_str()) && !x.name.contains("n_no_coor")) else { continue };
+                let gzi = pool.iter().find(|x| x.name == format!("gzi-of-{}", d.name)).cloned();
+                let full = if d.set == "fasta.gz" {
+                    match &gzi {
+                        Some(g) => vnd::query::fasta_gz_query_log(&d.bytes, &index.bytes, &g.bytes),
+                        None => continue,
+                    }
+                } else {
+                    vnd::query::query_log(d.format, &d.set, &d.bytes, index.format, &index.bytes)
+                };
+                // record positions, in file order
+                let mut units: Vec<(String, usize, usize)> = Vec::new();
+                if d.format == Format::Cram {
+                    let (_, cs) = vnd::walk::cram(&d.bytes);
+                    let mut o = Opts::for_doc(d).api(Api::Eager);
+                    o.vpos = false;
+                    let seq = vnd::read_log(d.format, &d.bytes[..], &o);
+                    let mut it = seq.iter().skip(1);
+                    for c in cs.iter().skip(1) {
+                        for _ in 0..c.n_records.max(0) {
+                            if let Some(l) = it.next() {
+                                units.push((key_of(l), c.start, c.end));
+                            }
+                        }
+                    }
+                } else if let Some(inner) = &d.inner {
+                    let member_of = |u: usize| -> (usize, usize) {
+                        // file offsets (start, end) of the member holding uncompressed offset u
+                        let m = inner.member_starts.partition_point(|&s| s <= u).saturating_sub(1);
+                        let start = if m == 0 { 0 } else { d.item_ends[m - 1] };
+                        (start, d.item_ends[m])
+                    };
+                    if matches!(d.format, Format::Bam | Format::Bcf) {
+                        let mut o = Opts::for_doc(d).api(Api::Eager);
+                        o.vpos = false;
+                        let seq = vnd::read_log(d.format, &d.bytes[..], &o);
+                        let mut ustart = inner.header_end;
+                        for (l, &uend) in seq.iter().skip(1).zip(inner.record_ends.iter()) {
+                            units.push((key_of(l), member_of(ustart).0, member_of(uend.saturating_sub(1)).1));
+                            ustart = uend;
+                        }
+                    } else {
+                        // text: one unit per line, keyed by the escaped line (IndexedReader records) and, for SAM.gz /
+                        // VCF.gz, additionally by the rendering of the sequential read
+                        let mut ls = 0usize;
+                        let mut lines: Vec<(usize, usize)> = Vec::new();
+                        for &le in inner.record_ends.iter() {
+                            lines.push((ls, le));
+                            ls = le;
+                        }
+                        let seq: Vec<String> = if matches!(d.format, Format::SamGz | Format::VcfGz) {
+                            let mut o = Opts::for_doc(d).api(Api::Eager);
+                            o.vpos = false;
+                            vnd::read_log(d.format, &d.bytes[..], &o).into_iter().skip(1).collect()
+                        } else {
+                            Vec::new()
+                        };
+                        let marker = match d.format {
+                            Format::SamGz => b'@',
+                            _ => b'#',
+                        };
+                        let mut ri = 0usize;
+                        for &(a, b) in &lines {
+                            let raw = &inner.bytes[a..b];
+                            let t = raw.strip_suffix(b"\n").unwrap_or(raw);
+                            let t = t.strip_suffix(b"\r").unwrap_or(t);
+                            let (s0, e1) = (member_of(a).0, member_of(b.saturating_sub(1).max(a)).1);
+                            units.push((format!("line={}", vnd::esc(t)), s0, e1));
+                            if !t.is_empty() && t[0] != marker {
+                                if let Some(l) = seq.get(ri) {
+                                    units.push((key_of(l), s0, e1));
+                                }
+                                ri += 1;
+                            }
+                        }
+                    }
+                }
+                irows.push(IRow { data: d.clone(), index: index.clone(), gzi, cuts: cuts(d), full, units });
+            }
+            let mut istarts = Vec::new();
+            let mut itotal = 0u64;
+            for r in &irows {
+                istarts.push(itotal);
+                itotal += r.cuts.len() as u64;
+            }
+            let (irows, istarts, distinct) = (&irows, &istarts, &distinct);
+            let loc = |i: u64| {
+                let r = istarts.partition_point(|&s| s <= i) - 1;
+                (r, (i - istarts[r]) as usize)
+            };
+            // label -> (records, terminal)
+            fn parse(log: &[String]) -> Vec<(String, Vec<String>, Option<String>)> {
+                let mut out: Vec<(String, Vec<String>, Option<String>)> = Vec::new();
+                for l in log {
+                    let (label, rec, term) = if let Some(p) = l.find(" rec[") {
+                        (l[..p].to_string(), l[p..].split_once("]: ").map(|x| x.1.trim_start().to_string()), None)
+                    } else if let Some(p) = l.find(": done n=") {
+                        (l[..p].to_string(), None, Some("done".to_string()))
+                    } else if let Some(p) = l.find(": Err(") {
+                        (l[..p].to_string(), None, Some(l[p + 2..].to_string()))
+                    } else {
+                        continue;
+                    };
+                    if out.last().map(|x| x.0 != label).unwrap_or(true) {
+                        out.push((label.clone(), Vec::new(), None));
+                    }
+                    let e = out.last_mut().unwrap();
+                    if let Some(r) = rec {
+                        e.1.push(r);
+                    }
+                    if term.is_some() {
+                        e.2 = term;
+                    }
+                }
+                out
+            }
+            ctx.sweep(
+                "indexed_cuts",
+                itotal,
+                |i| {
+                    let (r, c) = loc(i);
+                    format!("data={} index={} cut={} of {}", irows[r].data.name, irows[r].index.name, irows[r].cuts[c], irows[r].data.bytes.len())
+                },
+                |i| -> Outcome {
+                    let (r, c) = loc(i);
+                    let row = &irows[r];
+                    let d = &row.data;
+                    let k = row.cuts[c];
+                    let fasta = d.set == "fasta.gz";
+                    let got = if fasta {
+                        vnd::query::fasta_gz_query_log(&d.bytes[..k], &row.index.bytes, &row.gzi.as_ref().unwrap().bytes)
+                    } else {
+                        vnd::query::query_log(d.format, &d.set, &d.bytes[..k], row.index.format, &row.index.bytes)
+                    };
+                    {
+                        let mut h = std::collections::hash_map::DefaultHasher::new();
+                        (&d.name, 3u8, &got).hash(&mut h);
+                        distinct.lock().unwrap().insert(h.finish());
+                    }
+                    let fmt = if d.format == Format::Bgzf { d.set.clone() } else { d.format.name().to_string() };
+                    let cls = if d.format == Format::Cram { unit_class(&d.item_ends, d.header_end, k, "container", 0, 0) } else { cut_class(d, k) };
+                    let fp = |label: &str, symptom: &str| {
+                        let kind = label.split(' ').take_while(|w| !w.contains(':') || w.len() < 2).collect::<Vec<_>>().join("-");
+                        let kind = if label.starts_with("indexed query") { "indexed-query" } else if label.starts_with("query") { "query" } else if label.starts_with("fasta") { "fasta-query" } else { kind.as_str() };
+                        format!("format={fmt} index={} layer=indexed-access op={kind} cut={cls} symptom={symptom}", row.index.format)
+                    };
+                    let decoded = |label: &str| {
+                        format!(
+                            "data={} ({} bytes) truncated to {k} bytes ({cls}), index of the complete file = {}{}; one reader: read_header, then the query sequence of vnd::query::query_log; failing query: {label}; data (hex): {}; index (hex): {}",
+                            d.name,
+                            d.bytes.len(),
+                            row.index.name,
+                            row.gzi.as_ref().map(|g| format!(" + {}", g.name)).unwrap_or_default(),
+                            if d.bytes.len() <= 1600 { hex_full(&d.bytes) } else { vmc::hex(&d.bytes) },
+                            hex_full(&row.index.bytes)
+                        )
+                    };
+                    if let Some(l) = got.iter().find(|l| l.contains(vnd::NONTERM)) {
+                        return Err(Violation::new(fp("query", "non-termination"), decoded("?"), "finitely many records", short(l)));
+                    }
+                    if k == d.bytes.len() {
+                        if got != row.full {
+                            return Err(Violation::new(fp("query", "complete-file-differs"), decoded("?"), "the complete answer", "a different log"));
+                        }
+                        return Ok(());
+                    }
+                    if fasta {
+                        for (a, b) in row.full.iter().zip(got.iter()) {
+                            if a != b && !b.contains(": Err(") && !b.starts_with("end: Err(") {
+                                let label = a.split(": ").next().unwrap_or("fasta");
+                                return Err(Violation::new(fp(label, "altered-sequence"), decoded(label), short(a), short(b)));
+                            }
+                        }
+                        return Ok(());
+                    }
+                    let full = parse(&row.full);
+                    let cut = parse(&got);
+                    for (label, recs, term) in &cut {
+                        if label == "header" {
+                            continue;
+                        }
+                        let Some((_, frecs, fterm)) = full.iter().find(|x| &x.0 == label) else { continue };
+                        for (j, rline) in recs.iter().enumerate() {
+                            match frecs.get(j) {
+                                Some(f) if f == rline => {}
+                                Some(f) => return Err(Violation::new(fp(label, "altered-or-reordered-record"), decoded(label), format!("record {j}: {}", short(f)), format!("record {j}: {}", short(rline)))),
+                                None => return Err(Violation::new(fp(label, "fabricated-record"), decoded(label), format!("{} records", frecs.len()), format!("record {j}: {}", short(rline)))),
+                            }
+                        }
+                        let ended_err = matches!(term, Some(t) if t != "done");
+                        if recs.len() < frecs.len() && !ended_err && matches!(fterm, Some(t) if t == "done") {
+                            // clean end of a shorter answer: acceptable only if the first missing record is not there
+                            let missing = &frecs[recs.len()];
+                            let key = missing.as_str();
+                            let unit = row.units.iter().find(|u| u.0 == key || (key.contains(" line=") && key.ends_with(&u.0) && u.0.starts_with("line=")));
+                            let Some((_, ustart, uend)) = unit else {
+                                vmc::machinery(format!("C13 indexed_cuts: cannot locate a record of the complete answer in {} ({label}): {}", d.name, short(key)));
+                            };
+                            let absent = *ustart >= k || (d.format != Format::Cram && k - *ustart < 18);
+                            if !absent {
+                                let symptom = if *uend <= k { "clean-end-drops-available-record" } else { "clean-end-inside-partial-unit" };
+                                return Err(Violation::new(
+                                    fp(label, symptom),
+                                    decoded(label),
+                                    format!("{} records, or the first {} followed by Err (the next record's {} occupies file bytes {}..{})", frecs.len(), recs.len(), if d.format == Format::Cram { "container" } else { "BGZF member(s)" }, ustart, uend),
+                                    format!("{} records, then a clean end", recs.len()),
+                                ));
+                            }
+                        }
+                    }
+                    Ok(())
+                },
+            );
+        }
+
         let n = distinct.lock().unwrap().len() as u64;
         ctx.add_distinct(n, n);
         ctx.extra("big_documents_cut_subset", vmc::json!(big_cut_counts));
